@@ -166,22 +166,46 @@ def run(ctx):
     ctx.ob("R-SIB", "C02.5", lse, "logsubexp(x, y) = x + log1p(-exp(y - x))", lin_eq(arg, {"x": 1, "log1p(-exp(y - x))": 1}), f"{({k: str(v) for k, v in (arg or {}).items()})}")
     guards = [n for n in walk_no_nested(lse.node) if isinstance(n, ast.If) and canon(n.test) in ("any(x < y)", "any(y > x)") and any(isinstance(x, ast.Raise) for x in n.body)]
     ctx.ob("R-SIB", "C02.5", lse, "logsubexp refuses x < y (log of a negative number)", len(guards) == 1, "")
-    inl = single_assignments(inc.node)
-    zs = find_stmt("self.logZ = logaddexp($$W, self.logZ)", inc.node)
-    ctx.ob("R-SIB", "C02.5", inc, "evidence accumulated in log space: logZ = logaddexp(logZ, weight)", len(zs) == 1, "")
-    wt = inl.get(zs[0][1]["W"].id) if zs else None
+    # read from the path summaries of increment(): what self.logZ, self.logw and the recorded volume end up holding in terms
+    # of the values on entry (temporaries such as `oldZ = self.logZ`, renamed locals and argument order do not matter)
+    from ..summ import summarise as _summ02
+
     tv = tvar.get(inc.qual) or "?"
-    ctx.ob("R-SIB", "C02.5", inc, "rectangle rule: weight = log X_{i-1} + logL + log(1 - t)", wt is not None and lin_eq(linform(wt, rename={tv: "T"}), {"self.logw": 1, "logL": 1, "log1p(-exp(T))": 1}), f"`{src(wt)}`")
+    ipaths = [pa_ for pa_ in _summ02(inc.node, max_paths=400) if pa_.end != "raise"]
+    ok_acc = ok_rect = ok_ord = bool(ipaths)
+    seen_w = ""
+    T_ALLOWED = {"-1.0 / nlive", "-1 / nlive", "-log1p(1 / nlive)", "-1.0 / self.base_nlive", "-1 / self.base_nlive", "-log1p(1 / self.base_nlive)"}
+    for pa_ in ipaths:
+        z_ = pa_.env.get("self.logZ")
+        b_ = match_expr("logaddexp($a, $b)", z_) if z_ is not None else None
+        w_ = None
+        if b_ is not None:
+            if canon(b_["a"]) == "self.logZ":
+                w_ = b_["b"]
+            elif canon(b_["b"]) == "self.logZ":
+                w_ = b_["a"]
+        ok_acc = ok_acc and w_ is not None
+        t_ = pa_.env.get(tv)
+        lw_ = pa_.env.get("self.logw")
+        if w_ is not None and t_ is not None:
+            seen_w = src(w_)[:100]
+            lf_ = linform(w_)
+            tc_ = canon(t_)
+            ok_rect = ok_rect and lin_eq(lf_, {"self.logw": 1, "logL": 1, f"log1p(-exp({tc_}))": 1})
+        else:
+            ok_rect = False
+        # the volume shrinks by logt after the weight was taken, and that new volume is what the history records
+        apps_ = [e_[1] for e_ in pa_.effects if e_[0] == "call" and isinstance(e_[1], ast.Call) and canon(e_[1].func) == "self.log_vols.append"]
+        ok_ord = ok_ord and t_ is not None and lw_ is not None and lin_eq(linform(lw_), {"self.logw": 1, **linform(t_)}) and len(apps_) == 1 and len(apps_[0].args) == 1 and canon(apps_[0].args[0]) == canon(lw_)
+    ctx.ob("R-SIB", "C02.5", inc, "evidence accumulated in log space: logZ = logaddexp(logZ, weight)", ok_acc, f"{len(ipaths)} path(s)")
+    ctx.ob("R-SIB", "C02.5", inc, "rectangle rule: weight = log X_{i-1} + logL + log(1 - t)", ok_rect, f"`{seen_w}`")
     ctx.floor("C02.5", 5)
 
     # ---- C02.6 volumes decrease: order of the updates in increment -------------
     fa = FA(inc)
     upd = fa.find(lambda s: isinstance(s, ast.AugAssign) and is_self_attr(s.target, "logw"))
     app = fa.find_calls("self.log_vols.append")
-    wname = zs[0][1]["W"].id if zs else None
-    wts = fa.find(lambda s: isinstance(s, ast.Assign) and isinstance(s.targets[0], ast.Name) and s.targets[0].id == wname)
-    ok = len(upd) == 1 and len(app) == 1 and len(wts) == 1 and isinstance(fa.stmt(upd[0]).op, ast.Add) and src(fa.stmt(upd[0]).value) == tv and src(app[0][1].args[0]) == "self.logw" \
-        and fa.dominates(wts[0], upd[0]) and fa.dominates(upd[0], app[0][0]) and fa.once(upd[0]) and fa.once(app[0][0]) and fa.on_every_normal_path(app[0][0])
+    ok = ok_ord and ok_rect and len(app) == 1 and fa.once(app[0][0]) and fa.on_every_normal_path(app[0][0]) and all(fa.once(u_) for u_ in upd)
     ctx.ob("R-ORDER", "C02.6", inc, "each increment: weight uses the volume before shrinking, then logw += logt (negative), then the new volume is recorded - exactly once", ok, "")
     lapp = fa.find_calls("self.logLs.append")
     ctx.ob("R-ORDER", "C02.6", inc, "likelihood and volume histories grow together (one append each per increment)", len(lapp) == 1 and fa.once(lapp[0][0]) and fa.on_every_normal_path(lapp[0][0]) and src(lapp[0][1].args[0]) == "logL", "")
